@@ -119,6 +119,10 @@ def run_cfg(ctx, fx):
     # unsubscribe / re-subscribe made through a handle derived from the address meet in the same table entry
     from props import c15 as _c15
     _c15.check_birth(ctx, fx, fx.cfg, "R09.6")
+    # R09.7 "delivered to every subscriber that is still alive": the broker reaches a subscriber by upgrading the weak sender it was
+    # given, which needs both halves of the subscriber's channel alive — so whatever strong handle keeps the subscriber alive must
+    # keep both (shared with C15; a Caller that pins only the waiting half leaves a live subscriber that every publication skips)
+    core.shared(ctx, "R09.7", _c15.check_strong_kinds, ctx, fx, fx.cfg, "R09.7")
     # R09.1
     o = fx.owns_of("broker::Broker", "adt")
     if ctx.require(o is not None, "R09.1", "Broker", "broker::Broker not found"):
